@@ -2,6 +2,7 @@ import Swat4.Model.USys
 import Swat4.Lemmas.Prog
 import Swat4.Lemmas.Backed
 import Swat4.Lemmas.BackedSys
+import Swat4.Lemmas.BackedStrict
 /-!
 # C16 — No crash leaves a server waiting forever for a probe that does not exist
 
@@ -351,6 +352,108 @@ example (z : Fields) (m : Int) (req : ReportReq) (h : req.addr.PortOk) :
   Client.map _ _ (Client.report z m req h)
 example (m iv : Int) : Client (Prog.call Call.now fun now => (UC.refresh m (now + iv)).bind fun r => pure (match r with | .ok _ => "ok" | .error _ => "err")) :=
   Client.now _ (fun _ => Client.map _ _ (Client.refresh _ _))
+
+
+/-! ## expiry taken into account: `BackedStrict`
+
+`Backed` accepts any queued probe of the right address and goal as backing, also one with an `expires` time — which
+`PopMany` drops silently once the time has passed (`AbsState.popManyLoop`: `fresh := batch.filter (!·.expired now)`).
+`Strict.BackedStrict` demands a backing probe with `expires = none`.  Which enqueues carry an expiry: the refresher and
+the reviver pass `before = some deadline` (`usecases_filter_sets`) and set no mark; the three places that set a mark
+enqueue with no expiry (`discover_order`, `submission_order`: `none none`; `retry_order`: `(some ready) none`).  Hence
+every theorem above holds for `BackedStrict` as well: the `*_backed_strict` theorems below (proofs: the same
+development with `InQS` / `learnES`, `Lemmas/BackedStrict.lean`). -/
+
+open Strict in
+/-- `BackedStrict` is the stronger invariant -/
+theorem backedStrict_backed (s : AbsState) (h : BackedStrict s) : Backed s := h.backed
+
+open Strict in
+/-- **the difference is real**: `Strict.W.expiring` — A carries `details_retry`, the only queued details probe for A is
+a refresh probe expiring at 10 — is `Backed` but not `BackedStrict`; a `PopMany` at clock 20 delivers nothing (the probe
+is dropped as expired, counted), the queue is empty and the mark is an orphan that no client holds.  From a
+`BackedStrict` state this cannot happen to a mark whose backing has not been popped (`pop_strict_held`). -/
+theorem expiring_backing_orphaned :
+    Backed Strict.W.expiring ∧ ¬ BackedStrict Strict.W.expiring ∧
+    (Strict.W.expiring.popMany 20 5).2 = ([], 1) ∧ (Strict.W.expiring.popMany 20 5).1.queue = [] ∧
+    ¬ Backed (Strict.W.expiring.popMany 20 5).1 := by
+  refine ⟨?_, ?_, by decide, by decide, ?_⟩
+  · rw [← backedB_iff]; decide
+  · rw [← backedStrictB_iff, Bool.not_eq_true]; decide
+  · rw [← backedB_iff, Bool.not_eq_true]; decide
+
+open Strict in
+/-- **heartbeat-triggered discovery, strict**: `report_backed` for `BackedStrict` — every crash point, every fault
+placement; the discovery probe is enqueued with no expiry before the mark is written -/
+theorem report_backed_strict (cs : List Choice) (zeroInfo : Fields) (maxRetries : Int) (req : ReportReq) (now : Int) (s : AbsState)
+    (hb : BackedStrict s) (hk : Keyed s) : BackedStrict (Prog.runChoices cs (UC.report zeroInfo maxRetries req) s now) :=
+  ((Strict.report_good (fun _ => True) zeroInfo maxRetries req trivial).backed cs s now hb hk).1
+
+open Strict in
+/-- **REST submission, strict**: `addServer_backed` for `BackedStrict` -/
+theorem addServer_backed_strict (cs : List Choice) (zeroInfo : Fields) (maxRetries : Int) (a : Addr) (now : Int) (s : AbsState)
+    (hb : BackedStrict s) (hk : Keyed s) : BackedStrict (Prog.runChoices cs (UC.addServer zeroInfo maxRetries a) s now) :=
+  ((Strict.addServer_good (fun _ => True) zeroInfo maxRetries a trivial).backed cs s now hb hk).1
+
+open Strict in
+/-- **the prober, strict**: `probe_backed` for `BackedStrict` — whatever the probe the prober holds (also a refresh or
+revival probe that carried an expiry), whatever the outcome, crash point and fault placement, no *other* mark loses its
+non-expiring backing; the retry path re-queues with no expiry (`retry_order`) before marking -/
+theorem probe_backed_strict (cs : List Choice) (prb : Probe) (outcome : Option ProbeResult) (now : Int) (s : AbsState)
+    (hb : BackedExceptS s prb.addr prb.goal) (hk : Keyed s)
+    (hcanon : ∀ (row : SRow), s.servers[prb.addr.key]? = some row → row.svr.addr = prb.addr) :
+    BackedExceptS (Prog.runChoices cs (UC.probe prb outcome) s now) prb.addr prb.goal :=
+  ((Strict.probe_good (fun _ => True) prb outcome (E := fun _ _ => False) (R := fun x => x = prb.addr) rfl).backedExcept
+    cs s now hb hk hcanon).1
+
+open Strict in
+/-- **the holder ran to completion without a fault, strict**: `probe_complete_backed` for `BackedStrict` -/
+theorem probe_complete_backed_strict (prb : Probe) (outcome : Option ProbeResult) (now : Int) (s : AbsState)
+    (hb : BackedExceptS s prb.addr prb.goal) (hk : Keyed s)
+    (hcanon : ∀ (row : SRow), s.servers[prb.addr.key]? = some row → row.svr.addr = prb.addr) :
+    BackedStrict ((UC.probe prb outcome).run s now).1 ∧
+    ∀ n, 4 ≤ n → BackedStrict (Prog.runChoices (List.replicate n Choice.ok) (UC.probe prb outcome) s now) := by
+  have h := Strict.probe_run_backed prb outcome s now hb hk hcanon
+  refine ⟨h, fun n hn => ?_⟩
+  rw [runChoices_all_ok _ _ _ _ (Nat.le_trans (probe_runSteps_le prb outcome s now) hn)]
+  exact h
+
+open Strict in
+/-- **refresh and revival, strict**: they only enqueue (their probes do expire, and back nothing: they set no mark) -/
+theorem refresh_revive_backed_strict (cs : List Choice) (now : Int) (s : AbsState) (hb : BackedStrict s) (hk : Keyed s) :
+    (∀ (maxRetries deadline : Int), BackedStrict (Prog.runChoices cs (UC.refresh maxRetries deadline) s now)) ∧
+    (∀ (maxRetries minScope maxScope minCountdown maxCountdown deadline : Int) (draws : Nat → Int),
+      BackedStrict (Prog.runChoices cs (UC.revive maxRetries minScope maxScope minCountdown maxCountdown deadline draws) s now)) :=
+  ⟨fun maxRetries deadline => ((Strict.refresh_good (fun _ => True) maxRetries deadline).backed cs s now hb hk).1,
+   fun maxRetries minScope maxScope minCountdown maxCountdown deadline draws =>
+    ((Strict.revive_good (fun _ => True) maxRetries minScope maxScope minCountdown maxCountdown deadline draws).backed cs s now hb hk).1⟩
+
+open Strict in
+/-- **keepalive and removal, strict** -/
+theorem renew_remove_backed_strict (cs : List Choice) (now : Int) (s : AbsState) (hb : BackedStrict s) (hk : Keyed s) :
+    (∀ (instanceId srcIp : Nat), BackedStrict (Prog.runChoices cs (UC.renew instanceId srcIp) s now)) ∧
+    (∀ (instanceId : Nat) (a : Addr), BackedStrict (Prog.runChoices cs (UC.remove instanceId a) s now)) :=
+  ⟨fun instanceId srcIp => ((Strict.renew_good (fun _ => True) instanceId srcIp).backed cs s now hb hk).1,
+   fun instanceId a => ((Strict.remove_good (fun _ => True) instanceId a).backed cs s now hb hk).1⟩
+
+open Strict in
+/-- **C16 for every system without a popper, strict**: `C16_interleaved` for `BackedStrict`, over the same clients
+(now including the two-step cleaner `Client.cleanServers2`) and the same events -/
+theorem C16_interleaved_strict (u : USys) (es : List UEv) (hb : BackedStrict u.abs) (hk : KeyedOk u.abs)
+    (hc : ∀ c ∈ u.clients, Client c.prog) :
+    BackedStrict (u.run es).abs ∧ KeyedOk (u.run es).abs ∧ ∀ q ∈ u.abs.queue, q ∈ (u.run es).abs.queue :=
+  Strict.sys_backed u es hb hk hc
+
+/-- non-vacuity: the empty store is `BackedStrict`; the store after a fault-free heartbeat of a new server is
+`BackedStrict` with a mark in it (the `port_retry` mark of A, backed by the non-expiring discovery probe) -/
+example : Strict.BackedStrict {} := fun k row g h => by simp at h
+example : Strict.BackedStrict ((UC.report [] 2 ⟨W.A, 10481, 7, some []⟩).run {} 5).1 ∧
+    ((UC.report [] 2 ⟨W.A, 10481, 7, some []⟩).run {} 5).1.queue.map (·.expires) = [none] ∧
+    (((UC.report [] 2 ⟨W.A, 10481, 7, some []⟩).run {} 5).1.servers.toList.map fun kv => Status.has kv.2.svr.status Status.portRetry) = [true] := by
+  refine ⟨?_, by decide, by decide⟩
+  rw [← Strict.backedStrictB_iff]; decide
+/-- the two-step cleaner as the system model runs it is a `Client` -/
+example (r : Int) : Client ((UC.cleanServers2 r).bind fun _ => pure "ok") := Client.map _ _ (Client.cleanServers2 r)
 
 
 /-! ## the hypotheses are needed; a third way to lose the backing -/
